@@ -1091,3 +1091,29 @@ Proof.
   - intros [[i g] [HI E]]. exists (i, g). split; [|exact E]. apply H. split; [exact HI|]. intros [-> _].
     cbn in E. apply andb_true_iff in E. destruct E as [E _]. apply N.eqb_eq in E. congruence.
 Qed.
+
+(* ---------- the stored copy ---------- *)
+(* publishToClient computes retain flag, identifiers and QoS BEFORE the message is stored for a client that
+   cannot take it now; the stored copy is therefore the one a connected client would have been sent *)
+Definition online (cl : client) : client :=
+  mkCl true (cl_ver cl) (cl_rpi0 cl) (cl_persist cl) (cl_subs cl) (cl_pending cl).
+
+Theorem stored_copy_same s c cl sub m dr d :
+  publish_to_client s c cl sub m dr = PQueue d ->
+  publish_to_client s c (online cl) sub m false = PSend (wire (online cl) d) /\ 0 < d_qos d.
+Proof.
+  unfold publish_to_client, online. cbn [cl_conn cl_ver negb].
+  destruct (ms_nolocal sub && beq_bytes (m_origin m) c); [discriminate|].
+  destruct (denied s c (m_topic m)); [discriminate|].
+  destruct (negb (cl_conn cl)).
+  - destruct (min3 (m_qos m) (ms_qos sub) (st_maxqos s) =? 0) eqn:E; [discriminate|].
+    intro H. inversion H. subst d. cbn [d_qos]. split; [reflexivity|lia].
+  - destruct dr; discriminate.
+Qed.
+
+(* a resumed session is sent exactly its stored copies, encoded for the new connection *)
+Theorem resume_sends_stored orc drops s c ver persist rpi0 old :
+  get_client s c = Some old ->
+  o_deliv (snd (step orc drops s (OConnect c ver false persist rpi0)))
+  = map (wire (mkCl true ver rpi0 (if ver <? 5 then true else persist) (cl_subs old) [])) (cl_pending old).
+Proof. intro G. cbn [step]. rewrite G. cbn. reflexivity. Qed.
